@@ -6,6 +6,7 @@ package main
 
 import (
 	"bufio"
+	"encoding/json"
 	"errors"
 	"fmt"
 	"math"
@@ -235,6 +236,12 @@ func buildVal(x *sexp) (interface{}, error) {
 			return nil, errors.New("bad string")
 		}
 		return &ptrStringer{s}, nil
+	case "jnum": // encoding/json's Number: a named string type with a String method
+		s, ok := hexBytes(a)
+		if !ok {
+			return nil, errors.New("bad string")
+		}
+		return json.Number(s), nil
 	case "o":
 		v, err := strconv.Atoi(a)
 		return other(v), err
